@@ -54,10 +54,16 @@ type TrackSetController struct {
 	selector TrackNoSelector
 }
 
+// MaxTrackNum is the largest number of tracks the header of a standard midi file can declare.
+const MaxTrackNum = 0xFFFF
+
 func NewTrackSetControllerFromTrackNum(trackNum int) (*TrackSetController, error) {
 	selector, err := NewTrackNoSelector(trackNum)
 	if err != nil {
 		return nil, err
+	}
+	if trackNum > MaxTrackNum {
+		return nil, errorx.Invalid("a midi file holds at most %d tracks, %d", MaxTrackNum, trackNum)
 	}
 	set := NewTrackSetFromTrackNum(trackNum)
 	return &TrackSetController{
